@@ -51,6 +51,9 @@ def replay_family(fam, tier, variant, workdir):
     scen = gen_cached("CloneGen", "CloneGen_%s.cfg" % cfgname, "clone_" + cfgname)
     nscen = sum(1 for _ in open(scen))
     shards = min(NCPU, 16, max(1, nscen // (200 * variant.get("every", 1))))
+    if variant["unit"] >= 100000:
+        # MB-sized units: a run costs tens of milliseconds to seconds, spread even a small sample over all cores
+        shards = min(NCPU, 16, max(1, nscen // (6 * variant.get("every", 1))))
     procs = []
     traces = []
     for i in range(shards):
@@ -75,10 +78,10 @@ def replay_family(fam, tier, variant, workdir):
 
 L2_PLAN = {
     # property: [(family, take every n-th scenario quick/thorough, mode)]
-    "C03": [("inplace", 40, 8, "plain"), ("scansub", 60, 10, "plain"), ("big", 15, 40, "plain"), ("big", 2, 8, "bulk")],
-    "C02": [("seeds", 60, 10, "plain"), ("mixed", 20, 4, "plain"), ("mixed", 11, 3, "stdin"), ("big", 2, 8, "bulk")],
-    "C13": [("inplace", 80, 12, "plain"), ("mixed", 30, 6, "plain"), ("mixed", 23, 7, "stdin"), ("big", 20, 60, "plain"), ("big", 2, 8, "bulk")],
-    "C06": [("inplace", 70, 11, "plain"), ("mixed", 25, 5, "plain"), ("seeds", 120, 20, "plain"), ("big", 3, 12, "bulk")],
+    "C03": [("inplace", 40, 8, "plain"), ("scansub", 60, 10, "plain"), ("big", 15, 40, "plain"), ("big", 1, 8, "bulk")],
+    "C02": [("seeds", 60, 10, "plain"), ("mixed", 20, 4, "plain"), ("mixed", 11, 3, "stdin"), ("big", 1, 8, "bulk")],
+    "C13": [("inplace", 80, 12, "plain"), ("mixed", 30, 6, "plain"), ("mixed", 23, 7, "stdin"), ("big", 20, 60, "plain"), ("big", 1, 8, "bulk")],
+    "C06": [("inplace", 70, 11, "plain"), ("mixed", 25, 5, "plain"), ("seeds", 120, 20, "plain"), ("big", 2, 12, "bulk")],
     "C07": [("mixed", 20, 4, "plain"), ("seeds", 80, 16, "plain")],
     "C08": [("mixed", 25, 5, "httpfaults"), ("inplace", 150, 30, "httpfaults")],
     "C05": [("crash", 12, 2, "faults"), ("seeds", 250, 50, "faults"), ("mixed", 70, 14, "faults")],
